@@ -76,14 +76,15 @@ CHECKS = {
         text='Delegation histories are executed through the C API the way the Go binding does (slot arrays of exactly l-len(attrs) entries); after every step a monitor checks the key '
              'against a slot-pattern model kept outside the library: free-slot list ascending, e(a0,g)=e(g2,g1)e(g3 prod h_i^v_i,a1), e(b_i,g)=e(h_i,a1), bsig, membership, decryption of a '
              'fresh ciphertext for exactly the pattern by key and master key, a1 kept/changed. l=3: all 54 keygen lists x every documented one-step list x both omit-all settings x '
-             '{qualifykey, nondelegable_qualifykey} (+ resample samples); l up to 20: random histories of depth <= 5 incl. adjust_nondelegable. Held on N key checks.',
+             '{qualifykey, nondelegable_qualifykey} (+ resample samples, + adjustments that only toggle the omit-from-keys flag); hidden entries carry hostile id bits (the related list\'s value, r, 2^256-1, random); '
+             'l up to 20: random histories of depth <= 5 incl. adjust_nondelegable. Held on N key checks.',
         note='Trusted: the library\'s own bls12_381 layer as instrument for the equations (independently checked by C01-C08), the model in checks/wkd.py. Attribute values are sampled.',
         ref='DESIGN.md section 3 C11'),
     'C12': dict(
         technique='negative-oracle monitor over decrypt events: generator guarantees a real difference mod r (absent = 0); hidden-slot filling attempts through every API that could do it; ASan/UBSan',
         text='decrypt(key for pattern P, ciphertext for list L) must differ from the message whenever L differs from P as vectors mod r (change/drop/add at free or hidden slots/multi), '
              'must equal it for equal-mod-r representatives (positive controls); qualifykey / nondelegable_qualifykey / adjust_nondelegable called with a value for a hidden slot must not '
-             'yield a key that opens the ciphertext with that slot set; each single ciphertext component modification changes the result.',
+             'yield a key that opens the ciphertext with that slot set; a documented adjustment that hides a slot it had fixed must stop the key from opening ciphertexts with that slot set; each single ciphertext component modification changes the result.',
         note='Trusted: library arithmetic as instrument; coincidental equality of random GT elements (2^-255) ignored.',
         ref='DESIGN.md section 3 C12'),
     'C13': dict(
@@ -104,7 +105,8 @@ CHECKS = {
         text='All ten object kinds x both encodings x slot counts 0..20 x free-slot subsets x signature support: marshal into exactly get_marshalled_length bytes (twice over different '
              'fills: every byte written, none beyond), *_marshalled_length agrees, set_length recovers the slot count, validating and non-validating unmarshal reproduce an equal object '
              '(compressed params: recomputed pairing), re-marshal is byte-identical; layout parsed independently (flag byte, order, canonical coordinates, big-endian idx, GT); each '
-             'embedded element replaced by an invalid one (outside subgroup, off curve, wrong form, garbage) must be rejected.',
+             'embedded element replaced by an invalid one (outside subgroup, off curve, wrong form, garbage) must be rejected; destinations are reused (A, B with one invalid element at each position, intact B): '
+             'the result must equal unmarshalling B into a fresh destination and parameters must store e(g2,g1) of B.',
         note='Trusted: library group equality, oracle/bls.py for layout. The greater flag of compressed elements is masked in the layout comparison (covered by the decode round trip).',
         ref='DESIGN.md section 3 C15'),
     'C16': dict(
@@ -115,12 +117,14 @@ CHECKS = {
         note='Trusted: oracle/bls.py; library pairing as instrument for the always-on comparison.',
         ref='DESIGN.md section 3 C16'),
     'C17': dict(
-        technique='ASan+UBSan on the workloads of all other properties, hostile-buffer workload through the Go-binding protocol under ASan+UBSan and flush against PROT_NONE guard pages, libFuzzer in the thorough tier',
+        technique='ASan+UBSan on the workloads of all other properties, valgrind memcheck on the production build (uninitialised-value use; assembly routines), hostile-buffer workload through the Go-binding protocol under ASan+UBSan and flush against PROT_NONE guard pages, libFuzzer in the thorough tier',
         text='(1) the workloads of C01-C16 and C18 are re-run under clang ASan+UBSan (thorough: also 32-bit-word and gcc builds), any report or crash is a violation keyed by report kind and '
              'source location; (2) valid buffers of every object kind and their hostile neighbourhood (truncations, extensions, first byte 0/1/2/255, bit flips, element garbage, random '
              'bytes up to 4 KiB) go through set_length -> exact-size allocation -> unmarshal -> marshal, under sanitizers and, on the production build, flush against guard pages at '
              'either end; length discovery is compared with an independent statement of the format; (3) field/group/pairing operations on operands flush against guard pages because '
-             'the assembly is invisible to ASan; (4) thorough: 400k libFuzzer executions of the same protocol.',
+             'the assembly is invisible to ASan; (4) thorough: 400k libFuzzer executions of the same protocol; (5) valgrind memcheck over the production build (-Ofast + assembly) on a bounded '
+             'sample of every workload of C01-C17: use of uninitialised values and invalid accesses, also inside the assembly routines. Hostile buffers include identity encodings substituted '
+             'for every embedded point and every byte alignment of the buffer.',
         note='A clean sanitizer run is not memory safety: red-zone tools miss intra-object and far overruns (C06 guard words and the C08 cursor monitor cover the two fixed-size internal buffers). '
              'The Go bindings are not executed (no toolchain); their allocation protocol is reproduced in C.',
         ref='DESIGN.md section 3 C17'),
@@ -140,12 +144,14 @@ CHECKS = {
         note='Go bindings cannot run here (no toolchain); cgo consumes these same headers. The mapping wrapper -> intended C++ operation is taken from the header names/documentation.',
         ref='DESIGN.md section 3 C19'),
     'C20': dict(
-        technique='executed freestanding closure link, strace bracket, writable-symbol snapshot, ThreadSanitizer runs with result comparison against sequential replay and an observed-overlap matrix',
+        technique='executed freestanding closure link, strace bracket, writable-symbol snapshot, const-input snapshot and read-only (mprotect) shared inputs, ThreadSanitizer and valgrind helgrind runs with result comparison against sequential replay and an observed-overlap matrix',
         text='(1) undefined-symbol table of every object vs the allowed set and a -nostdlib -static link with a runtime offering only mem* + libgcc that runs initialisers and a '
-             'pairing/WKD-IBE/LQ-IBE workload (prod, portable-64, portable-32); (2) no system call between markers bracketing all 12 API families; (3) all writable library symbols '
+             'pairing/WKD-IBE/LQ-IBE workload (prod, portable-64, portable-32); (2) no system call between markers bracketing all 14 API families; (3) all writable library symbols '
              'unchanged by the workload; (4) TSan builds, 4/8/16 threads from a barrier, seeded mixes on private outputs sharing const inputs, frequently the same operation at once: no '
-             'report, results identical to sequential replay; evidence lists the operation-family pairs actually seen overlapping.',
-        note='A finite number of schedules is observed. TSan cannot see inside the assembly routines (they touch only their arguments).',
+             'report, results identical to sequential replay; evidence lists the operation-family pairs actually seen overlapping; (5) the shared const inputs (incl. attribute lists with '
+             'identities >= r, hidden entries, scalars >= r) are byte-identical to their snapshot after every workload, and production builds run all families with those inputs in read-only '
+             'pages; (6) helgrind over the production build, which also sees the assembly routines.',
+        note='A finite number of schedules is observed. TSan cannot see inside the assembly routines; helgrind on the production build can, at lower volume.',
         ref='DESIGN.md section 3 C20'),
     'C03': dict(
         technique='differential execution of one vector set on six back ends (x86-64 BMI2/ADX and baseline assembly via dispatch swap and direct calls, portable 64-bit, portable 32-bit, AArch64 assembly under a subset interpreter of its disassembly, ARMv6-M assembly under a source-level Thumb-1 interpreter) against an integer oracle',
